@@ -270,6 +270,12 @@ def sequence_and_environment_runs(viol, tier):
              os.path.join(mdir, "target", "out", "c.wgsl"), mdir, mdir + "/",
              "/other/place/d.wgsl", mdir + "x/e.wgsl", "shaders/f.wgsl", "./g.wgsl",
              os.path.join(os.path.dirname(mdir), "h.wgsl")]
+    # some of the named files exist, with OTHER content than the source handed in (the path is
+    # an opaque string for the generator: it is neither read nor compared)
+    for rel in ("shaders/a.wgsl", "shaders/f.wgsl", "g.wgsl"):
+        os.makedirs(os.path.dirname(os.path.join(mdir, rel)), exist_ok=True)
+        with open(os.path.join(mdir, rel), "w") as f:
+            f.write("// stale copy on disk\n@compute @workgroup_size(1) fn old() {}\n")
     jobs = []
     for k, pth in enumerate(paths):
         c = cases[k % len(cases)]
